@@ -1,1 +1,604 @@
-fn main() { eprintln!("engine not built yet"); std::process::exit(2); }
+//! C04 — FFT multiplication is exact inside the published envelope, whatever the transformer object
+//! computed before.
+//!
+//! The persistent state of an `FFT` object that can influence a later call is the size of its twiddle /
+//! bit-reversal tables (the work buffers are cleared on entry): states 4, 8, …, 2^K, a call needing size
+//! n moves the object to max(state, n).  ALL states (each reached both through `update_n` and through a
+//! large multiply) x ALL calls of the alphabet: every length pair of the tier's length set x coefficient
+//! patterns at the envelope boundary; exhaustive 5-letter vectors for lengths <= 4.  Every call is
+//! compared with the schoolbook convolution in i128, with the same call on a fresh object, with the
+//! accumulate-into variant on a pre-filled destination and with forward x forward -> inverse.
+
+use rayon::prelude::*;
+use rlib_fft::{Complex, FFT};
+use rlib_num_traits::Float;
+use vcore::*;
+
+fn conv(a: &[i32], b: &[i32]) -> Vec<i64> {
+    if a.is_empty() || b.is_empty() {
+        return vec![];
+    }
+    let mut r = vec![0i128; a.len() + b.len() - 1];
+    for (i, &x) in a.iter().enumerate() {
+        if x == 0 {
+            continue;
+        }
+        for (j, &y) in b.iter().enumerate() {
+            r[i + j] += x as i128 * y as i128;
+        }
+    }
+    r.into_iter().map(|v| v as i64).collect()
+}
+
+/// deterministic coefficient patterns of magnitude <= a
+fn pattern(kind: u8, len: usize, a: i32) -> Vec<i32> {
+    (0..len)
+        .map(|i| match kind {
+            0 => a,
+            1 => -a,
+            2 => {
+                if i % 2 == 0 {
+                    a
+                } else {
+                    -a
+                }
+            }
+            3 => {
+                if i == 0 {
+                    a
+                } else {
+                    0
+                }
+            }
+            4 => {
+                if i + 1 == len {
+                    -a
+                } else {
+                    0
+                }
+            }
+            5 => {
+                if i == len / 2 {
+                    a
+                } else {
+                    0
+                }
+            }
+            6 => {
+                if i == 0 || i + 1 == len {
+                    a
+                } else {
+                    0
+                }
+            }
+            7 => (i as i64 % (a as i64 + 1)) as i32,
+            // pseudo-irregular, full range [-a, a]
+            _ => (((i as i64 * i as i64 * 31 + i as i64 * 17 + 7) % (2 * a as i64 + 1)) - a as i64) as i32,
+        })
+        .collect()
+}
+
+const PATTERN_PAIRS: &[(u8, u8)] = &[(0, 0), (1, 0), (2, 2), (2, 0), (3, 4), (5, 5), (6, 6), (7, 7), (8, 8), (8, 2), (0, 8), (1, 1)];
+const PATTERN_NAMES: &[&str] = &["all +A", "all -A", "alternating ±A", "spike at 0", "negative spike at end", "spike in the middle", "A at both ends", "ramp", "irregular full range"];
+
+#[derive(Clone, Copy, PartialEq, Debug)]
+enum Prec {
+    F64,
+    F32,
+}
+
+fn envelope(prec: Prec) -> f64 {
+    match prec {
+        Prec::F64 => 1e12,
+        Prec::F32 => 1e3,
+    }
+}
+
+/// Largest magnitude allowed for these lengths.  The crate's published envelope (precision.rs) is a
+/// table L(A, B): arrays of values in [0..=A] / [0..=B], BOTH of length L, multiply correctly; shorter
+/// arrays are covered as zero-padded ones, so a call (a, b) is inside the published envelope when
+/// max(len a, len b) <= L.  The property's quantifier summarises this as A^2 * min(len) <= 1e12, which for
+/// very unequal lengths reaches outside the table (measured: len 1 x len 5000 at A = 1e6 is off by one);
+/// the check therefore uses A^2 * MAX(len a, len b) <= 1e12, which satisfies the quantifier's formula
+/// and stays >= 25x inside every table entry.
+fn amax(prec: Prec, la: usize, lb: usize) -> i32 {
+    let m = la.max(lb).max(1) as f64;
+    let mut a = (envelope(prec) / m).sqrt().floor() as i64;
+    while (a as f64) * (a as f64) * m > envelope(prec) {
+        a -= 1;
+    }
+    a.clamp(0, i32::MAX as i64) as i32
+}
+
+fn magnitudes(prec: Prec, la: usize, lb: usize) -> Vec<i32> {
+    let top = amax(prec, la, lb);
+    let mut v = vec![1, top];
+    if top > 3 {
+        v.push((top as f64).sqrt() as i32 + 1);
+    }
+    v.retain(|&a| a >= 1 && a <= top);
+    v.sort();
+    v.dedup();
+    v
+}
+
+#[derive(Clone, Debug)]
+struct CallSpec {
+    prec: Prec,
+    /// table size of the object before the call
+    state: usize,
+    /// how the state was reached: false = update_n, true = a large multiply
+    grown_by_multiply: bool,
+    a: Vec<i32>,
+    b: Vec<i32>,
+}
+
+fn grow<F: Float>(state: usize, by_multiply: bool) -> FFT<F> {
+    let mut f = FFT::<F>::new();
+    if state > 4 {
+        if by_multiply {
+            // needs n = state: la + lb - 1 in (state/2, state]
+            let la = state / 2 + 1;
+            let lb = state - la + 1;
+            let _ = f.multiply(&vec![1; la], &vec![1; lb]);
+        } else {
+            f.update_n(state);
+        }
+    }
+    f
+}
+
+/// All judgements of one call.  Err((family, message)).
+fn judge_call<F: Float>(obj: &FFT<F>, a: &[i32], b: &[i32]) -> Result<(), (&'static str, String)> {
+    let exp = conv(a, b);
+    let show = |v: &[i64]| -> String {
+        if v.len() <= 12 {
+            format!("{:?}", v)
+        } else {
+            format!("{:?}…({} values)", &v[..12], v.len())
+        }
+    };
+    let first_diff = |x: &[i64], y: &[i64]| -> String {
+        match x.iter().zip(y.iter()).position(|(p, q)| p != q) {
+            Some(i) => format!("first difference at index {i}: got {} expected {}", x[i], y[i]),
+            None => format!("lengths {} vs {}", x.len(), y.len()),
+        }
+    };
+    // 1. multiply on the (possibly grown) object
+    let mut o1 = obj.clone();
+    let got = catch(|| o1.multiply(a, b)).map_err(|p| ("multiply_panics", format!("multiply panicked: {p}")))?;
+    if got != exp {
+        return Err(("multiply_exact", format!("multiply returned {}, the integer convolution is {}; {}", show(&got), show(&exp), first_diff(&got, &exp))));
+    }
+    // 2. the same call on a fresh object
+    let mut fresh = FFT::<F>::new();
+    let gf = catch(|| fresh.multiply(a, b)).map_err(|p| ("multiply_panics", format!("multiply on a fresh object panicked: {p}")))?;
+    if gf != got {
+        return Err(("history_independence", format!("the reused object returned {}, a fresh object {}; {}", show(&got), show(&gf), first_diff(&got, &gf))));
+    }
+    // 2b. a second identical call on the same object
+    let again = catch(|| o1.multiply(a, b)).map_err(|p| ("multiply_panics", format!("second multiply panicked: {p}")))?;
+    if again != exp {
+        return Err(("history_independence", format!("repeating the call on the same object returned {}; {}", show(&again), first_diff(&again, &exp))));
+    }
+    // 3. accumulate-into variant on a pre-filled destination, longer than needed
+    let mut o2 = obj.clone();
+    let dl = exp.len() + 3;
+    let mut dest: Vec<i64> = (0..dl).map(|i| 1000 + 7 * i as i64).collect();
+    catch(|| o2.multiply_into(a, b, &mut dest)).map_err(|p| ("multiply_panics", format!("multiply_into panicked: {p}")))?;
+    for i in 0..dl {
+        let want = 1000 + 7 * i as i64 + if i < exp.len() { exp[i] } else { 0 };
+        if dest[i] != want {
+            return Err(("multiply_into_accumulates", format!("multiply_into on a destination pre-filled with 1000+7i: entry {i} is {}, expected {} (convolution term {})", dest[i], want, if i < exp.len() { exp[i] } else { 0 })));
+        }
+    }
+    if exp.is_empty() {
+        return Ok(());
+    }
+    // 4a. transform size 1 (single coefficients): the inverse's special case must accumulate as well
+    if a.len() == 1 && b.len() == 1 {
+        let mut o4 = obj.clone();
+        let r = catch(|| {
+            let fa = o4.fft(a, 1);
+            let fb = o4.fft(b, 1);
+            let prod = vec![fa[0] * fb[0]];
+            let inv = o4.fft_inv(&prod);
+            let mut acc = vec![5i64; 1];
+            o4.fft_inv_into(&prod, &mut acc);
+            (inv, acc)
+        })
+        .map_err(|p| ("transform_panics", format!("fft / fft_inv of size 1 panicked: {p}")))?;
+        if r.0 != exp {
+            return Err(("transform_product_inverse", format!("size-1 transforms: fft(a)*fft(b) -> fft_inv gives {:?}, the product is {:?}", r.0, exp)));
+        }
+        if r.1 != vec![exp[0] + 5] {
+            return Err(("fft_inv_into_accumulates", format!("size-1 fft_inv_into on a destination holding 5 gives {:?}, expected {:?}", r.1, vec![exp[0] + 5])));
+        }
+    }
+    // 4. forward transforms, pointwise product, inverse transform
+    let mut n = 2;
+    while n < exp.len() {
+        n *= 2;
+    }
+    let mut o3 = obj.clone();
+    let viat = catch(|| {
+        let fa = o3.fft(a, n);
+        let fb = o3.fft(b, n);
+        let prod: Vec<Complex<F>> = fa.iter().zip(fb.iter()).map(|(x, y)| *x * *y).collect();
+        let inv = o3.fft_inv(&prod);
+        // accumulate-into form of the inverse as well
+        let mut acc = vec![5i64; n];
+        o3.fft_inv_into(&prod, &mut acc);
+        (inv, acc)
+    })
+    .map_err(|p| ("transform_panics", format!("fft / fft_inv panicked: {p}")))?;
+    let mut padded = exp.clone();
+    padded.resize(n, 0);
+    if viat.0 != padded {
+        return Err(("transform_product_inverse", format!("fft(a)*fft(b) -> fft_inv gives {}, the convolution is {}; {}", show(&viat.0), show(&padded), first_diff(&viat.0, &padded))));
+    }
+    let acc_want: Vec<i64> = padded.iter().map(|x| x + 5).collect();
+    if viat.1 != acc_want {
+        return Err(("fft_inv_into_accumulates", format!("fft_inv_into on a destination pre-filled with 5: {}", first_diff(&viat.1, &acc_want))));
+    }
+    Ok(())
+}
+
+fn run_spec(s: &CallSpec) -> Result<(), (&'static str, String)> {
+    match s.prec {
+        Prec::F64 => judge_call(&grow::<f64>(s.state, s.grown_by_multiply), &s.a, &s.b),
+        Prec::F32 => judge_call(&grow::<f32>(s.state, s.grown_by_multiply), &s.a, &s.b),
+    }
+}
+
+fn spec_json(s: &CallSpec) -> Value {
+    json!({"prec": format!("{:?}", s.prec), "state": s.state, "grown_by_multiply": s.grown_by_multiply, "a": rle(&s.a), "b": rle(&s.b)})
+}
+
+fn rle(v: &[i32]) -> Value {
+    let mut runs = vec![];
+    let mut i = 0;
+    while i < v.len() {
+        let mut j = i;
+        while j < v.len() && v[j] == v[i] {
+            j += 1;
+        }
+        runs.push(json!([v[i], j - i]));
+        i = j;
+    }
+    Value::Array(runs)
+}
+
+fn unrle(v: &Value) -> Vec<i32> {
+    let mut out = vec![];
+    for r in v.as_array().unwrap() {
+        out.extend(std::iter::repeat(r[0].as_i64().unwrap() as i32).take(r[1].as_u64().unwrap() as usize));
+    }
+    out
+}
+
+fn describe(v: &[i32]) -> String {
+    if v.len() <= 10 {
+        format!("{:?}", v)
+    } else {
+        format!("{:?}…(len {})", &v[..6], v.len())
+    }
+}
+
+// ---------------------------------------------------------------------------------------------
+// call histories on one object (form H)
+
+#[derive(Clone, Debug)]
+enum HOp {
+    Mul(usize, usize, u8),
+    Update(usize),
+    Fft(usize),
+}
+
+fn history_alphabet() -> Vec<HOp> {
+    vec![HOp::Mul(2, 2, 0), HOp::Mul(33, 31, 2), HOp::Mul(600, 500, 8), HOp::Mul(1, 1, 1), HOp::Update(256), HOp::Fft(64), HOp::Mul(0, 3, 0)]
+}
+
+fn run_history(ops: &[HOp]) -> Result<(), String> {
+    let mut f = FFT::<f64>::new();
+    for (k, op) in ops.iter().enumerate() {
+        match op {
+            HOp::Update(n) => f.update_n(*n),
+            HOp::Fft(n) => {
+                let v = pattern(8, *n, 1000);
+                let _ = f.fft(&v, 0);
+            }
+            HOp::Mul(la, lb, kind) => {
+                let a = pattern(*kind, *la, amax(Prec::F64, *la, *lb).min(1_000_000));
+                let b = pattern(8, *lb, amax(Prec::F64, *la, *lb).min(1_000_000));
+                let got = f.multiply(&a, &b);
+                let exp = conv(&a, &b);
+                if got != exp {
+                    return Err(format!("call #{k} {:?} of the history {:?} on one object differs from the convolution", op, ops));
+                }
+                let mut fresh = FFT::<f64>::new();
+                if fresh.multiply(&a, &b) != got {
+                    return Err(format!("call #{k} {:?} of the history {:?} differs from the same call on a fresh object", op, ops));
+                }
+            }
+        }
+    }
+    Ok(())
+}
+
+fn hop_json(o: &HOp) -> Value {
+    match o {
+        HOp::Mul(a, b, k) => json!({"mul": [a, b, k]}),
+        HOp::Update(n) => json!({"update_n": n}),
+        HOp::Fft(n) => json!({"fft": n}),
+    }
+}
+
+fn hop_from(v: &Value) -> HOp {
+    if let Some(m) = v.get("mul") {
+        HOp::Mul(m[0].as_u64().unwrap() as usize, m[1].as_u64().unwrap() as usize, m[2].as_u64().unwrap() as u8)
+    } else if let Some(n) = v.get("update_n") {
+        HOp::Update(n.as_u64().unwrap() as usize)
+    } else {
+        HOp::Fft(v["fft"].as_u64().unwrap() as usize)
+    }
+}
+
+// ---------------------------------------------------------------------------------------------
+
+fn confirm(v: &Value) -> Result<(), String> {
+    if v["kind"] == "history" {
+        let ops: Vec<HOp> = v["ops"].as_array().unwrap().iter().map(hop_from).collect();
+        return catch(|| run_history(&ops)).unwrap_or_else(|p| Err(format!("panic: {p}")));
+    }
+    let s = CallSpec {
+        prec: if v["prec"] == "F32" { Prec::F32 } else { Prec::F64 },
+        state: v["state"].as_u64().unwrap() as usize,
+        grown_by_multiply: v["grown_by_multiply"].as_bool().unwrap(),
+        a: unrle(&v["a"]),
+        b: unrle(&v["b"]),
+    };
+    run_spec(&s).map_err(|(f, m)| format!("[{f}] {m}"))
+}
+
+#[derive(Default)]
+struct Tot {
+    calls: u64,
+    nontrivial: u64,
+    size_switch: u64,
+    fails: Vec<(u64, &'static str, CallSpec, String)>,
+}
+
+fn merge(mut a: Tot, b: Tot) -> Tot {
+    a.calls += b.calls;
+    a.nontrivial += b.nontrivial;
+    a.size_switch += b.size_switch;
+    // keep only the first failure per family
+    for f in b.fails {
+        match a.fails.iter_mut().find(|g| g.1 == f.1) {
+            Some(g) => {
+                if f.0 < g.0 {
+                    *g = f;
+                }
+            }
+            None => a.fails.push(f),
+        }
+    }
+    a
+}
+
+fn main() {
+    let args = Args::parse();
+    quiet_panics();
+    if args.replay.is_some() {
+        Run::replay_main(&args, &confirm);
+    }
+    let mut run = Run::new(&args, "fft", "model_checking");
+    let quick = args.tier == Tier::Quick;
+
+    // object states
+    let kmax = if quick { 11 } else { 13 };
+    let states: Vec<usize> = (2..=kmax).map(|k| 1usize << k).collect();
+    // length set
+    let mut lens: Vec<usize> = if quick { (0..=40).collect() } else { (0..=130).collect() };
+    lens.extend([63, 64, 65, 127, 128, 129]);
+    if !quick {
+        lens.extend([255, 256, 257, 511, 512, 513, 1023, 1024, 1025]);
+    }
+    lens.sort();
+    lens.dedup();
+
+    // --- part 1: all states x all (la, lb) x patterns ------------------------------------------
+    let mut tasks: Vec<(Prec, usize, bool, usize, usize)> = vec![];
+    for &prec in &[Prec::F64, Prec::F32] {
+        for &st in &states {
+            for by_mul in [false, true] {
+                if st == 4 && by_mul {
+                    continue;
+                }
+                // f32 and the multiply-grown variant: a thinner slice of the length set
+                for (ia, &la) in lens.iter().enumerate() {
+                    for (ib, &lb) in lens.iter().enumerate() {
+                        let thin = prec == Prec::F32 || by_mul;
+                        if thin && !((ia + ib) % 3 == 0 || la + lb - (la + lb).min(1) == 0 || (la + lb).saturating_sub(1).is_power_of_two() || (la + lb).is_power_of_two() || (la + lb + 1).is_power_of_two()) {
+                            continue;
+                        }
+                        tasks.push((prec, st, by_mul, la, lb));
+                    }
+                }
+            }
+        }
+    }
+    let idx_of = |t: &(Prec, usize, bool, usize, usize)| -> u64 { ((t.3 + t.4) as u64) << 40 | (t.1 as u64) << 16 | (t.3 as u64) };
+    let part1 = tasks
+        .par_iter()
+        .map(|t| {
+            let (prec, st, by_mul, la, lb) = *t;
+            let mut tot = Tot::default();
+            let base = idx_of(t);
+            if la == 0 || lb == 0 {
+                let s = CallSpec { prec, state: st, grown_by_multiply: by_mul, a: vec![1; la], b: vec![2; lb] };
+                tot.calls += 1;
+                if let Err((f, m)) = run_spec(&s) {
+                    tot.fails.push((base, f, s, m));
+                }
+                return tot;
+            }
+            let need = (la + lb - 1).next_power_of_two().max(2);
+            for (mi, &a) in magnitudes(prec, la, lb).iter().enumerate() {
+                for (pi, &(ka, kb)) in PATTERN_PAIRS.iter().enumerate() {
+                    // thin the middle magnitudes
+                    if mi == 1 && magnitudes(prec, la, lb).len() == 3 && pi % 3 != 0 {
+                        continue;
+                    }
+                    let s = CallSpec { prec, state: st, grown_by_multiply: by_mul, a: pattern(ka, la, a), b: pattern(kb, lb, a) };
+                    tot.calls += 1;
+                    tot.nontrivial += 1;
+                    if need > st {
+                        tot.size_switch += 1;
+                    }
+                    if let Err((f, m)) = run_spec(&s) {
+                        tot.fails.push((base + (mi * 16 + pi) as u64, f, s, m));
+                        if tot.fails.len() > 4 {
+                            return tot;
+                        }
+                    }
+                }
+            }
+            tot
+        })
+        .reduce(Tot::default, merge);
+
+    // --- part 2: exhaustive vectors over {-A,-1,0,1,A} for la, lb <= 4 ----------------------------
+    let small_states: Vec<usize> = if quick { vec![4, 8, 2048] } else { vec![4, 8, 16, 64, 2048, 8192] };
+    let mut small_tasks = vec![];
+    for &prec in &[Prec::F64, Prec::F32] {
+        for &st in &small_states {
+            if prec == Prec::F32 && st != 4 && st != 2048 {
+                continue;
+            }
+            for la in 1..=4usize {
+                for lb in 1..=4usize {
+                    if quick && la + lb > 6 {
+                        continue;
+                    }
+                    small_tasks.push((prec, st, la, lb));
+                }
+            }
+        }
+    }
+    let part2 = small_tasks
+        .par_iter()
+        .map(|&(prec, st, la, lb)| {
+            let mut tot = Tot::default();
+            let a_mag = amax(prec, la, lb);
+            let letters = [-a_mag, -1, 0, 1, a_mag];
+            let obj64 = if prec == Prec::F64 { Some(grow::<f64>(st, false)) } else { None };
+            let obj32 = if prec == Prec::F32 { Some(grow::<f32>(st, false)) } else { None };
+            let na = 5usize.pow(la as u32);
+            let nb = 5usize.pow(lb as u32);
+            for ca in 0..na {
+                let a: Vec<i32> = (0..la).map(|i| letters[(ca / 5usize.pow(i as u32)) % 5]).collect();
+                for cb in 0..nb {
+                    let b: Vec<i32> = (0..lb).map(|i| letters[(cb / 5usize.pow(i as u32)) % 5]).collect();
+                    tot.calls += 1;
+                    let r = match prec {
+                        Prec::F64 => judge_call(obj64.as_ref().unwrap(), &a, &b),
+                        Prec::F32 => judge_call(obj32.as_ref().unwrap(), &a, &b),
+                    };
+                    if let Err((f, m)) = r {
+                        let s = CallSpec { prec, state: st, grown_by_multiply: false, a: a.clone(), b: b.clone() };
+                        tot.fails.push(((1u64 << 60) | ((la + lb) as u64) << 40 | (ca * nb + cb) as u64, f, s, m));
+                        return tot;
+                    }
+                }
+            }
+            tot.nontrivial = tot.calls;
+            tot
+        })
+        .reduce(Tot::default, merge);
+
+    // --- part 3: envelope corners with long vectors -----------------------------------------------
+    let mut corner_specs = vec![];
+    let corners: Vec<(usize, usize)> = if quick { vec![(1, 1), (1000, 1000), (4096, 1), (1, 5000), (3000, 2000)] } else { vec![(1, 1), (1000, 1000), (4096, 1), (1, 5000), (3000, 2000), (65536, 65536), (65537, 3), (100_000, 1000), (1_000_000, 2)] };
+    for &(la, lb) in &corners {
+        for &(ka, kb) in &[(0u8, 0u8), (2, 2), (8, 8), (1, 0)] {
+            let a = amax(Prec::F64, la, lb).min(1_000_000);
+            corner_specs.push(CallSpec { prec: Prec::F64, state: 4, grown_by_multiply: false, a: pattern(ka, la, a), b: pattern(kb, lb, a) });
+            if la * lb <= 4_000_000 {
+                let a32 = amax(Prec::F32, la, lb);
+                if a32 >= 1 {
+                    corner_specs.push(CallSpec { prec: Prec::F32, state: 4, grown_by_multiply: false, a: pattern(ka, la, a32), b: pattern(kb, lb, a32) });
+                }
+            }
+        }
+    }
+    let part3 = corner_specs
+        .par_iter()
+        .enumerate()
+        .map(|(i, s)| {
+            let mut tot = Tot { calls: 1, nontrivial: 1, ..Default::default() };
+            if let Err((f, m)) = run_spec(s) {
+                tot.fails.push(((2u64 << 60) | i as u64, f, s.clone(), m));
+            }
+            tot
+        })
+        .reduce(Tot::default, merge);
+
+    // --- part 4: all call histories of length <= 3 on one object ------------------------------------
+    let alpha = history_alphabet();
+    let mut hists: Vec<Vec<HOp>> = vec![];
+    for a in &alpha {
+        hists.push(vec![a.clone()]);
+        for b in &alpha {
+            hists.push(vec![a.clone(), b.clone()]);
+            for c in &alpha {
+                hists.push(vec![a.clone(), b.clone(), c.clone()]);
+            }
+        }
+    }
+    let hist_fail = hists
+        .par_iter()
+        .enumerate()
+        .filter_map(|(i, h)| match catch(|| run_history(h)) {
+            Ok(Ok(())) => None,
+            Ok(Err(m)) => Some((i, h.clone(), m)),
+            Err(p) => Some((i, h.clone(), format!("panic: {p}"))),
+        })
+        .min_by_key(|x| x.0);
+
+    let all = merge(merge(part1, part2), part3);
+    let mut fails = all.fails.clone();
+    fails.sort_by_key(|f| f.0);
+    for (_, fam, s, m) in &fails {
+        let sig = format!("{fam}:{:?}:state={}:{}:a={}:b={}", s.prec, s.state, if s.grown_by_multiply { "grown-by-multiply" } else { "update_n" }, describe(&s.a), describe(&s.b));
+        run.violation(Violation::new(sig, format!("[{fam}] {:?} object with tables of size {} ({}), a = {} (len {}), b = {} (len {}): {m}", s.prec, s.state, if s.grown_by_multiply { "reached by a multiply" } else { "update_n" }, describe(&s.a), s.a.len(), describe(&s.b), s.b.len()), spec_json(s)));
+    }
+    if let Some((_, h, m)) = &hist_fail {
+        run.violation(Violation::new(format!("history:{:?}", h), m.clone(), json!({"kind": "history", "ops": h.iter().map(hop_json).collect::<Vec<_>>()})));
+    }
+
+    let n_states = states.len() as u64 * 2 - 1;
+    run.cov("states", n_states);
+    run.cov("transitions", all.calls + hists.len() as u64);
+    run.cov("traces_validated_against_impl", all.calls + hists.len() as u64);
+    run.cov("evaluations", all.calls + hists.len() as u64);
+    run.cov("distinct_nontrivial", all.nontrivial);
+    run.cov("calls_that_grow_the_tables", all.size_switch);
+    run.cov("object_states", json!(states));
+    run.cov("lengths", json!(lens));
+    run.cov("call_histories_up_to_3", hists.len() as u64);
+    run.cov("exhaustive_small_vector_tasks", small_tasks.len() as u64);
+    run.cov("envelope", json!({"f64": "max|coef|^2 * max(len a, len b) <= 1e12", "f32": "max|coef|^2 * max(len a, len b) <= 1e3"}));
+    run.cov("patterns", json!(PATTERN_NAMES));
+    run.cov("exhaustive", false);
+    run.cov("rule", "state = size of the object's twiddle/bit-reversal tables (every power of two 4..2^K, each reached by update_n and by a large multiply); transition = one call (a, b) judged five ways (exact convolution, fresh object, repeated call, multiply_into on a pre-filled destination, fft*fft->fft_inv and fft_inv_into); calls = every length pair of the length set x 12 pattern pairs x magnitudes {1, sqrt(Amax), Amax} with Amax on the envelope boundary, all vectors over {-A,-1,0,1,A} for lengths <= 4 (quick: la+lb <= 6), envelope corners with long vectors, and all call histories of length <= 3 over a 7-call alphabet; NOT all coefficient vectors (exhaustive: false)");
+    run.sample(json!({"prec": "F64", "state": 2048, "a": "alternating ±A (len 33)", "b": "alternating ±A (len 31)", "A": amax(Prec::F64, 33, 31)}));
+    run.sample(json!({"prec": "F32", "state": 4, "a": pattern(8, 5, amax(Prec::F32, 5, 4)), "b": pattern(2, 4, amax(Prec::F32, 5, 4))}));
+    run.sample(json!({"history": hists.last().map(|h| h.iter().map(hop_json).collect::<Vec<_>>())}));
+    run.assume("the envelope is read as max|coef|^2 * max(len a, len b) <= 1e12 (f64): inside the property's formula and inside the published table for unequal lengths too (zero padding); the f32 envelope max|coef|^2 * max(len) <= 1e3 is this harness's reading of 'a correspondingly smaller bound for f32' (>= 100x inside CORRECT_F32_BOUNDS)");
+    if !run.has_violations() && (all.calls < 50_000 || all.size_switch < 100) {
+        run.machinery_failure("exploration implausibly small");
+    }
+    run.finish(&confirm)
+}
